@@ -153,6 +153,14 @@ func strTruncateFunc(_ *ctx.EvalCtx, receiver object.Object, args ...object.Obje
 	val := receiver.(*object.Str).Value
 	limit := int(firstArg.Value)
 
+	// the second argument has to be a string also when nothing is cut
+	if len(args) > 1 {
+		if _, ok := args[1].(*object.Str); !ok {
+			msg := fmt.Sprintf(fail.ErrFuncSecondArgStr, "truncate", object.STR_OBJ)
+			return nil, errors.New(msg)
+		}
+	}
+
 	if limit >= utf8.RuneCountInString(val) {
 		return &object.Str{Value: val}, nil
 	}
